@@ -149,6 +149,7 @@ out.append("; GENERATED by spec/gen_pvm.py from the Gray Paper v0.7.2 Appendix A
 out.append(member("pvm_valid", VALID))
 out.append(member("pvm_is_alu", sorted(ALU)))
 out.append(member("pvm_is_cond_branch", sorted(BR)))
+out.append(member("pvm_is_ecalli", [10]))
 out.append(member("pvm_needs_dst", NEEDS_DST))
 out.append(member("pvm_needs_src0", NEEDS_S0))
 out.append(member("pvm_needs_src1", NEEDS_S1))
